@@ -491,7 +491,24 @@ class FragGen:
         params = [self.fresh("p") for _ in range(nparams)]
         fenv = {"ints": list(env["ints"]) + params, "bools": list(env["bools"]), "muts": [], "funs": list(env.get("funs", []))}
         out = ["%s :: fn %s-> int do" % (f, "".join("%s: int, " % p for p in params)[:-2] + " " if params else "")]
-        if params and r.random() < 0.5:
+        if self.stage >= 5 and r.random() < 0.6:
+            # stage 4a: early returns, also from inside a loop and an if
+            v = self.fresh("a")
+            i = self.fresh("i")
+            out.append("  %s := %s" % (v, self.int_expr(fenv, 1)))
+            fenv["ints"].append(v); fenv["muts"].append(v)
+            out.append("  if %s do ret %s end" % (self.bool_expr(fenv, 1), self.int_expr(fenv, 1)))
+            out.append("  %s := 0" % i)
+            out.append("  loop %s < %d do" % (i, r.randint(1, 4)))
+            out.append("    %s += 1" % i)
+            out.append("    %s += %s" % (v, i))
+            out.append("    if %s > %d do ret %s * 2 end" % (v, r.randint(3, 15), v))
+            out.append("  end")
+            if r.random() < 0.5:
+                out.append("  ret %s" % self.int_expr(fenv, 1))
+            else:
+                out.append("  %s" % self.int_expr(fenv, 1))
+        elif params and r.random() < 0.5:
             # a recursion that counts its first parameter down
             p0 = params[0]
             rest = ", ".join(params[1:])
